@@ -26,6 +26,12 @@ def _name(ex, s):
 
 def _fresh(ex, name, w, signed):
     n = _name(ex, name)
+    conc = getattr(ex.ctx, "concrete", None)
+    if conc is not None:
+        from .iops import norm
+        v = norm(int(conc.get(n, 0)), w, signed)
+        ex.ctx.vars[n] = (v, w, signed)
+        return v
     if ex.ctx.intmode == "bv":
         t = z3.BitVec(n, w)
     else:
@@ -56,6 +62,11 @@ def v_u8(ex, args, ins):
 @vfunc("vBool")
 def v_bool(ex, args, ins):
     n = _name(ex, args[0])
+    conc = getattr(ex.ctx, "concrete", None)
+    if conc is not None:
+        v = bool(conc.get(n, False))
+        ex.ctx.vars[n] = (v, 1, False)
+        return (v,)
     t = z3.Bool(n)
     ex.ctx.vars[n] = (t, 1, False)
     return (t,)
@@ -101,6 +112,7 @@ def v_assert(ex, args, ins):
 
 @vfunc("vReach")
 def v_reach(ex, args, ins):
+    ex.ctx.reached[args[0]] = ex.guard
     ex.ctx.obligations.append(Obligation("reachability witness: " + args[0], ex.guard, "reach"))
     return ()
 
@@ -113,6 +125,8 @@ def v_symbolic(ex, args, ins):
 @vfunc("vNote")
 def v_note(ex, args, ins):
     label, v = args
+    if isinstance(v, Iface):
+        v = v.val
     ex.ctx.notes.append((label, ex.guard, v))
     return ()
 
